@@ -92,7 +92,8 @@ type Source struct {
 	repl     net.Conn // current replication connection
 	replGen  int
 	closed   bool
-	dropAt   int64 // drop the link once this many stream bytes were written (-1 = never)
+	dropAt   int64   // drop the link once this many stream bytes were written (-1 = never)
+	dropNext []int64 // further drop positions, armed one after the other
 	BadAuth  int
 	Drops    []DropEv
 	Writes   []WriteEv // when which stream position had been handed to the kernel
@@ -162,6 +163,14 @@ func (s *Source) Feed(b []byte) {
 func (s *Source) DropAfter(n int64) {
 	s.mu.Lock()
 	s.dropAt = n
+	s.cond.Broadcast()
+	s.mu.Unlock()
+}
+
+// DropAfterEach arms several drops: the link dies at the first position, the resumed link at the second, and so on.
+func (s *Source) DropAfterEach(ns ...int64) {
+	s.mu.Lock()
+	s.dropAt, s.dropNext = ns[0], append([]int64{}, ns[1:]...)
 	s.cond.Broadcast()
 	s.mu.Unlock()
 }
@@ -406,6 +415,9 @@ func (s *Source) writer(c net.Conn, id int, prefix []byte, from int64) {
 		}
 		if s.dropAt >= 0 && pos >= s.dropAt {
 			s.dropAt = -1
+			if len(s.dropNext) > 0 {
+				s.dropAt, s.dropNext = s.dropNext[0], s.dropNext[1:]
+			}
 			s.repl = nil
 			s.Drops = append(s.Drops, DropEv{At: time.Now(), Pos: pos})
 			s.mu.Unlock()
